@@ -99,7 +99,9 @@ def gen_case(rng, tier):
     qs = [gen_box(rng, rng.choice(["lattice", "random"])) for _ in range(3)]
     if allb:
         qs += touching_queries(rng, rng.sample(allb, min(len(allb), 3)))
-    return dict(h1=h1, h2=h2, queries=qs)
+    # half of the cases also query the tree BETWEEN the batches (box queries, root box, self query):
+    # an answer must depend on the insertion history only, never on earlier queries
+    return dict(h1=h1, h2=h2, queries=qs, interleave=rng.random() < 0.5)
 
 
 # ---------------------------------------------------------------- model side
@@ -205,6 +207,34 @@ def judge_case(case, r):
                 min(b[4] for b, _ in ins1), max(b[5] for b, _ in ins1)]
         if [float(x) for x in ra] != [float(x) for x in want]:
             fails.append(f"get_root_aabb {ra} != hull of inserted boxes {want}")
+    if "mid" in r:
+        # interleaved queries: judged against everything inserted up to that moment
+        sofar = []
+        stages = [[]] + [bt for bt in case["h1"]]
+        for k, rec in enumerate(r["mid"]):
+            if k > 0:
+                bt = stages[k]
+                for i, b in enumerate(bt["boxes"]):
+                    sofar.append((tuple(float(x) for x in b), None if bt["data"] is None else bt["data"][i]))
+            for qq in rec["q"]:
+                got = sorted((tuple(b), -1 if e is None else e) for b, e in zip(qq["boxes"], qq["ext"]))
+                want = sorted((b, -1 if d is None else d) for b, d in sofar if overlap(b, tuple(qq["box"])))
+                if len(set(qq["ov"])) != len(qq["ov"]):
+                    fails.append(f"interleaved query after batch {k}: duplicate index {qq['ov']}")
+                elif got != want:
+                    fails.append(f"interleaved overlaps_aabb after batch {k} (q={qq['box']}): got {len(got)} boxes, "
+                                 f"brute force {len(want)}")
+                if qq["flag"] != (len(qq["ov"]) > 0):
+                    fails.append("interleaved query: flag inconsistent")
+            if sofar and rec.get("root") is not None:
+                want = [min(b[0] for b, _ in sofar), max(b[1] for b, _ in sofar),
+                        min(b[2] for b, _ in sofar), max(b[3] for b, _ in sofar),
+                        min(b[4] for b, _ in sofar), max(b[5] for b, _ in sofar)]
+                if [float(x) for x in rec["root"]] != [float(x) for x in want]:
+                    fails.append(f"get_root_aabb after batch {k}: {rec['root']} != hull of inserted boxes {want}")
+                nself = sum(1 for a, _ in sofar for b, _ in sofar if overlap(a, b))
+                if rec.get("self_pairs") != nself:
+                    fails.append(f"tree-vs-itself after batch {k}: {rec.get('self_pairs')} pairs, brute force {nself}")
     return fails
 
 
